@@ -300,3 +300,20 @@ def pattern_witness(t1, t2, limit=400):
         if a != b:
             return {tm.show(x): ('%#x' % v) for x, v in env.items()}, a, b
     return None
+
+
+def signbit_select(t):
+    """{c[0 .. w-2], b} with a constant c and a symbolic bit b (a float constant whose sign is a condition, as copysign-like code compiles to)
+    ->  select(b, -|c|.., c): the same value written as a selection between the two constants"""
+    memo = {}
+    for x in tm.walk(t):
+        if not any(isinstance(a, tm.T) for a in x.args):
+            memo[x] = x
+            continue
+        na = tuple(memo[a] if isinstance(a, tm.T) else a for a in x.args)
+        y = x if all(p is q for p, q in zip(na, x.args)) else tm.make(x.op, na, x.w)
+        if y.op == 'concat' and len(y.args) == 2 and y.args[0].op == 'const' and y.args[1].w == 1 and y.args[1].op != 'const' and y.w in (32, 64):
+            c0 = y.args[0].args[0]
+            y = tm.select(y.args[1], tm.const(y.w, c0 | (1 << (y.w - 1))), tm.const(y.w, c0))
+        memo[x] = y
+    return memo[t]
